@@ -172,13 +172,27 @@ macro_rules! tracked {
             #[allow(dead_code)]
             body: $body,
         }
-        impl LabVal for $name {
+        tracked!(@impls [] $name, $key, $mkbody);
+    };
+    // a generic tracked type: its NAME mentions the type argument, its auto traits need not
+    ($name:ident < $t:ident >, $key:literal, $body:ty, $mkbody:expr) => {
+        #[derive(Debug)]
+        pub struct $name<$t> {
+            serial: u32,
+            payload: u32,
+            #[allow(dead_code)]
+            body: $body,
+        }
+        tracked!(@impls [$t] $name<$t>, $key, $mkbody);
+    };
+    (@impls [$($g:ident)?] $name:ty, $key:literal, $mkbody:expr) => {
+        impl$(<$g>)? LabVal for $name {
             const KEY: &'static str = $key;
             const TRACKED: bool = true;
             fn make(payload: u32) -> Self {
                 let serial = fresh();
                 log_make($key, serial, payload);
-                $name {
+                Self {
                     serial,
                     payload,
                     body: ($mkbody)(payload),
@@ -194,12 +208,12 @@ macro_rules! tracked {
                 self.payload += 1;
             }
         }
-        impl Drop for $name {
+        impl$(<$g>)? Drop for $name {
             fn drop(&mut self) {
                 ev(format!("{{\"ev\":\"destroy\",\"serial\":{},\"key\":\"{}\"}}", self.serial, $key));
             }
         }
-        impl Clone for $name {
+        impl$(<$g>)? Clone for $name {
             fn clone(&self) -> Self {
                 clone_gate();
                 let serial = fresh();
@@ -207,19 +221,19 @@ macro_rules! tracked {
                     "{{\"ev\":\"clone\",\"from\":{},\"to\":{},\"key\":\"{}\",\"payload\":{}}}",
                     self.serial, serial, $key, self.payload
                 ));
-                $name {
+                Self {
                     serial,
                     payload: self.payload,
                     body: ($mkbody)(self.payload),
                 }
             }
         }
-        impl Serialize for $name {
+        impl$(<$g>)? Serialize for $name {
             fn serialize<S: Serializer>(&self, s: S) -> Result<S::Ok, S::Error> {
                 self.payload.serialize(s)
             }
         }
-        impl<'de> Deserialize<'de> for $name {
+        impl<'de $(, $g)?> Deserialize<'de> for $name {
             fn deserialize<D: Deserializer<'de>>(d: D) -> Result<Self, D::Error> {
                 Ok(Self::make(de_payload(d)?))
             }
@@ -237,6 +251,28 @@ tracked!(RcT, "RcT", Rc<u32>, |p: u32| Rc::new(p));
 tracked!(CellT, "CellT", Cell<u32>, |p: u32| Cell::new(p));
 tracked!(PtrT, "PtrT", *const u8, |_p: u32| std::ptr::null::<u8>());
 tracked!(GuardT, "GuardT", PhantomData<std::sync::MutexGuard<'static, ()>>, |_p: u32| PhantomData);
+// generic types whose names mention a type that is not Send / not Sync although they are both:
+// `lab_types::FnOf<lab_types::RcT>` (function pointers are Send + Sync whatever their argument) and
+// `lab_types::Shared<lab_types::CellT>` (a mutex makes a Send value shareable)
+tracked!(FnOf<T>, "FnRc", fn(T) -> usize, |_p: u32| {
+    fn f<X>(_: X) -> usize {
+        0
+    }
+    f::<T> as fn(T) -> usize
+});
+tracked!(Shared<T>, "MxCell", std::sync::Arc<std::sync::Mutex<Option<T>>>, |_p: u32| std::sync::Arc::new(
+    std::sync::Mutex::new(None)
+));
+pub type FnRc = FnOf<RcT>;
+pub type MxCell = Shared<CellT>;
+const _: () = {
+    fn both<X: Send + Sync>() {}
+    #[allow(dead_code)]
+    fn check() {
+        both::<FnRc>();
+        both::<MxCell>();
+    }
+};
 
 /// Zero-size type with a destructor: no identity (serial 0), destructions are counted.
 #[derive(Debug, Default)]
